@@ -30,6 +30,22 @@ taken at a counter `fetching _` are download attempts and exactly these consume 
 a download; for a run that has stopped this is the number of download attempts.  All solo theorems
 are stated for an arbitrary unconsumed remainder `rest` of the script, which shows that nothing
 beyond the stated attempts is consumed.
+
+## Findings
+
+* `hinj` is needed by `inv_step` (hence by everything about what is *returned*): the step
+  `readCache → done x` returns whatever the slot holds.  Without it only `unverified_never_cached`
+  (every entry is verified data of SOME dataset owning the slot) survives; `shared_slot_crosses`
+  is the counterexample.
+* `later_load_succeeds` is about a load that runs alone (`runSolo`) after an arbitrary history;
+  the history itself is fully concurrent.
+* Outside the model: `validate_checksum=False` (then unverified data IS parsed, cached and
+  returned), negative `n_retries` (the `== 0` test never fires: unbounded retries), the reliance
+  of `pickle.dump(dataset, open(…, "wb"))` on the immediate close of the unreferenced file object
+  before `os.rename` (CPython reference counting), `os.rename` onto an existing file (atomic
+  replace on POSIX, `FileExistsError` on Windows), power loss (no `fsync`), and cache files put
+  there by something other than this function (`pickle.load` trusts them).  A kill leaves the
+  temporary directory behind in the dataset folder for ever; it never collides with an entry.
 -/
 
 set_option linter.unusedSectionVars false
@@ -106,6 +122,456 @@ theorem unverified_never_cached (w₀ : World) (h0 : Init w₀) (es : List Event
   rcases (weak_reachable c w₀ es (weak_init c h0)).1 s with hn | ⟨d, hd, he⟩
   · rw [hn] at hx; cases hx
   · rw [he] at hx; exact ⟨d, hd, (Option.some.inj hx).symm⟩
+
+/-- (a), (b), (c) together -/
+theorem unverified_never_used (hinj : Function.Injective c.slotOf) (w₀ : World) (h0 : Init w₀)
+    (es : List Event) :
+    let w := runEvents c w₀ es
+    (∀ p net b, w.pc p = .fetched b → b ≠ c.good (w.ds p) →
+      (step c w p net).pc p = .failed .osError ∧ (step c w p net).entry = w.entry) ∧
+    (∀ p r, w.pc p = .done r → r = c.parse (c.good (w.ds p))) ∧
+    (∀ d x, w.entry (c.slotOf d) = some x → x = c.parse (c.good d)) := by
+  intro w
+  refine ⟨fun p net b h1 h2 => unverified_rejected c w p net b h1 h2,
+    fun p r h => (unverified_never_returned c hinj w₀ h0 es p r h).1, fun d x h => ?_⟩
+  rcases entry_absent_or_complete c hinj w₀ h0 es d with hn | hs
+  · rw [show w.entry (c.slotOf d) = none from hn] at h; cases h
+  · rw [show w.entry (c.slotOf d) = _ from hs] at h; exact (Option.some.inj h).symm
+
+/-! ## 6. The flag table (first step from `init download_if_missing download_even_if_available r`) -/
+
+/-- missing, downloads allowed: download (whatever `download_even_if_available`) -/
+theorem flags_missing_download (w : World) (p : Nat) (net : Net) (even : Bool) (r : Nat)
+    (hpc : w.pc p = .init true even r) (he : w.entry (c.slotOf (w.ds p)) = none) :
+    step c w p net = setPC w p (.fetching r) :=
+  step_init_fetch c w p net hpc (by simp [he])
+
+/-- available, forced re-download -/
+theorem flags_available_forced (w : World) (p : Nat) (net : Net) (r : Nat) (x : Data)
+    (hpc : w.pc p = .init true true r) (he : w.entry (c.slotOf (w.ds p)) = some x) :
+    step c w p net = setPC w p (.fetching r) :=
+  step_init_fetch c w p net hpc (by simp [he])
+
+/-- available, default flags: read the cache -/
+theorem flags_available_default (w : World) (p : Nat) (net : Net) (r : Nat) (x : Data)
+    (hpc : w.pc p = .init true false r) (he : w.entry (c.slotOf (w.ds p)) = some x) :
+    step c w p net = setPC w p .readCache :=
+  step_init_read c w p net hpc (by simp [he]) (by simp [he])
+
+/-- available, downloads forbidden: read the cache (whatever `download_even_if_available`) -/
+theorem flags_available_offline (w : World) (p : Nat) (net : Net) (even : Bool) (r : Nat) (x : Data)
+    (hpc : w.pc p = .init false even r) (he : w.entry (c.slotOf (w.ds p)) = some x) :
+    step c w p net = setPC w p .readCache :=
+  step_init_read c w p net hpc (by simp [he]) (by simp [he])
+
+/-- missing, downloads forbidden: `OSError` -/
+theorem flags_missing_offline (w : World) (p : Nat) (net : Net) (even : Bool) (r : Nat)
+    (hpc : w.pc p = .init false even r) (he : w.entry (c.slotOf (w.ds p)) = none) :
+    step c w p net = setPC w p (.failed .osError) :=
+  step_init_missing c w p net hpc (by simp [he]) (by simp [he])
+
+/-- the whole table at once, on the program counter -/
+theorem flags_table (w : World) (p : Nat) (net : Net) (dl even : Bool) (r : Nat)
+    (hpc : w.pc p = .init dl even r) :
+    (step c w p net).pc p =
+      match dl, even, (w.entry (c.slotOf (w.ds p))).isSome with
+      | true, _, false => .fetching r
+      | true, true, true => .fetching r
+      | true, false, true => .readCache
+      | false, _, true => .readCache
+      | false, _, false => .failed .osError := by
+  cases he : w.entry (c.slotOf (w.ds p)) with
+  | none =>
+    cases dl
+    · rw [flags_missing_offline c w p net even r hpc he]; simp
+    · rw [flags_missing_download c w p net even r hpc he]; simp
+  | some x =>
+    cases dl
+    · rw [flags_available_offline c w p net even r x hpc he]; simp
+    · cases even
+      · rw [flags_available_default c w p net r x hpc he]; simp
+      · rw [flags_available_forced c w p net r x hpc he]; simp
+
+/-! ## 5. A cached dataset is served without network access -/
+
+/-- the run is `init → readCache → done`: the trace contains no `fetching` (no download attempt),
+no answer of the script is consumed (the statement holds for every script, including `[]`), the
+cache is unchanged and the entry's content is returned -/
+theorem hit_without_network (w : World) (p : Nat) (dl : Bool) (r : Nat) (x : Data)
+    (script : List Net) (fuel : Nat) (hfuel : 3 ≤ fuel)
+    (he : w.entry (c.slotOf (w.ds p)) = some x) (hpc : w.pc p = .init dl false r) :
+    (runSolo c fuel w p script).1.pc p = .done x ∧
+    (runSolo c fuel w p script).2 = [.readCache, .done x] ∧
+    downloads (w.pc p) (runSolo c fuel w p script).2 = 0 ∧
+    (runSolo c fuel w p script).1.entry = w.entry ∧
+    runSolo c fuel w p script = runSolo c fuel w p [] := by
+  rw [solo_hit c script hpc he (by omega), solo_hit c [] hpc he (by omega)]
+  simp [downloads, hpc, PC.isFetching]
+
+/-! ## 7. A later load succeeds, whatever earlier crashes left behind -/
+
+/-- from EVERY world satisfying the invariant: a load with `download_if_missing` whose (single)
+download attempt is answered by the pinned payload returns the verified data, and afterwards the
+entry is the complete copy of it -/
+theorem later_load_succeeds (hinj : Function.Injective c.slotOf) (w : World) (h : CacheInv c w)
+    (p : Nat) (even : Bool) (r : Nat) (rest : List Net) (fuel : Nat) (hfuel : 10 ≤ fuel)
+    (hpc : w.pc p = .init true even r) :
+    let w' := (runSolo c fuel w p (.payload (c.good (w.ds p)) :: rest)).1
+    w'.pc p = .done (c.parse (c.good (w.ds p))) ∧
+    w'.entry (c.slotOf (w.ds p)) = some (c.parse (c.good (w.ds p))) ∧
+    CacheInv c w' := by
+  intro w'
+  have hfresh : ((true && !(w.entry (c.slotOf (w.ds p))).isSome)
+      || (true && even && (w.entry (c.slotOf (w.ds p))).isSome)) = true →
+      w' = commit c w p (c.parse (c.good (w.ds p))) := by
+    intro hc
+    show (runSolo c fuel w p _).1 = _
+    rw [solo_init_fetch c _ hpc hc (by omega)]
+    have := solo_fetch_good c (w := setPC w p (.fetching r)) (p := p) (f := fuel - 1) [] rest
+      (setPC_pc_self _ _ _) (by simp) (by simp) (by simp; omega)
+    simp only [List.nil_append, setPC_ds] at this
+    rw [this]; simp
+  have hinv : CacheInv c w' := by
+    -- the solo run is a particular event list
+    have : ∀ (f : Nat) (w : World) (s : List Net), CacheInv c w →
+        CacheInv c (runSolo c f w p s).1 := by
+      intro f
+      induction f with
+      | zero => intro w s h; exact h
+      | succ f ih =>
+        intro w s h
+        rw [runSolo_succ]
+        split
+        · exact h
+        · split
+          · cases s with
+            | nil => exact h
+            | cons a rest => exact ih _ _ (Cache.inv_step c hinj w p a h)
+          · exact ih _ _ (Cache.inv_step c hinj w p .other h)
+    exact this _ _ _ h
+  cases he : w.entry (c.slotOf (w.ds p)) with
+  | none =>
+    have hw := hfresh (by simp [he])
+    rw [hw]; rw [hw] at hinv
+    exact ⟨by simp, by simp, hinv⟩
+  | some x =>
+    have hx : x = c.parse (c.good (w.ds p)) := inv_owner c hinj h he
+    cases even with
+    | true =>
+      have hw := hfresh (by simp [he])
+      rw [hw]; rw [hw] at hinv
+      exact ⟨by simp, by simp, hinv⟩
+    | false =>
+      have hw : w' = setPC w p (.done x) := by
+        show (runSolo c fuel w p _).1 = _
+        rw [solo_hit c _ hpc he (by omega)]
+      rw [hw]; rw [hw] at hinv
+      subst hx
+      exact ⟨by simp, by simpa using he, hinv⟩
+
+/-- the formulation with `n_retries + 1` good answers available (only one is consumed) -/
+theorem later_load_succeeds_replicate (hinj : Function.Injective c.slotOf) (w : World)
+    (h : CacheInv c w) (p : Nat) (r : Nat) (fuel : Nat) (hfuel : 10 ≤ fuel)
+    (hpc : w.pc p = .init true false r) :
+    let w' := (runSolo c fuel w p (List.replicate (r + 1) (.payload (c.good (w.ds p))))).1
+    w'.pc p = .done (c.parse (c.good (w.ds p))) ∧
+    w'.entry (c.slotOf (w.ds p)) = some (c.parse (c.good (w.ds p))) := by
+  rw [List.replicate_succ]
+  exact ⟨(later_load_succeeds c hinj w h p false r _ fuel hfuel hpc).1,
+    (later_load_succeeds c hinj w h p false r _ fuel hfuel hpc).2.1⟩
+
+/-- the headline: after ANY history from an empty cache (faults, kills, concurrent loaders), a
+loader that has not started yet succeeds and returns exactly the verified data -/
+theorem later_load_after_anything (hinj : Function.Injective c.slotOf) (w₀ : World) (h0 : Init w₀)
+    (es : List Event) (p : Nat) (even : Bool) (r : Nat) (rest : List Net) (fuel : Nat)
+    (hfuel : 10 ≤ fuel) (hpc : (runEvents c w₀ es).pc p = .init true even r) :
+    let w := runEvents c w₀ es
+    let w' := (runSolo c fuel w p (.payload (c.good (w.ds p)) :: rest)).1
+    w'.pc p = .done (c.parse (c.good (w₀.ds p))) ∧
+    w'.entry (c.slotOf (w₀.ds p)) = some (c.parse (c.good (w₀.ds p))) := by
+  intro w w'
+  have h := Cache.cache_inv_reachable c hinj w₀ es (Cache.inv_init c h0)
+  have hds : w.ds p = w₀.ds p := by show (runEvents c w₀ es).ds p = _; rw [runEvents_ds]
+  have := later_load_succeeds c hinj w h p even r rest fuel hfuel hpc
+  refine ⟨?_, ?_⟩
+  · rw [← hds]; exact this.1
+  · rw [← hds]; exact this.2.1
+
+/-! ## 4. The retry bound
+
+`fs` is the list of transient failures (`URLError` / `TimeoutError`), `k = fs.length`.  The trace
+of the retry loop is `retryTrace k left = [fetching (left-1), …, fetching (left-k)]`. -/
+
+/-- `k ≤ left` failures are absorbed; the pinned payload that follows is cached and returned,
+after exactly `k + 1` download attempts -/
+theorem retry_absorbed_good (w : World) (p left : Nat) (fs rest : List Net) (fuel : Nat)
+    (hpc : w.pc p = .fetching left) (hfs : ∀ a ∈ fs, a = Net.urlError ∨ a = Net.timeout)
+    (hk : fs.length ≤ left) (hfuel : fs.length + 10 ≤ fuel) :
+    let r := runSolo c fuel w p (fs ++ .payload (c.good (w.ds p)) :: rest)
+    r.1.pc p = .done (c.parse (c.good (w.ds p))) ∧
+    r.1.entry (c.slotOf (w.ds p)) = some (c.parse (c.good (w.ds p))) ∧
+    r.2 = retryTrace fs.length left ++ .fetched (c.good (w.ds p)) :: goodTail c (w.ds p) ∧
+    downloads (w.pc p) r.2 = fs.length + 1 := by
+  intro r
+  have hfs' : ∀ a ∈ fs, isFail a = true := fun a ha => by rcases hfs a ha with h | h <;> rw [h] <;> rfl
+  have hr : r = _ := solo_fetch_good c fs rest hpc hfs' hk (by omega)
+  rw [hr]
+  refine ⟨by simp, by simp, rfl, ?_⟩
+  rw [hpc]
+  exact downloads_retry _ _ _ (by simp [goodTail, PC.isFetching])
+
+/-- `k ≤ left` failures are absorbed; a payload with another SHA-256 that follows raises `OSError`
+and nothing is cached -/
+theorem retry_absorbed_bad (w : World) (p left : Nat) (b : Bytes) (fs rest : List Net) (fuel : Nat)
+    (hpc : w.pc p = .fetching left) (hb : b ≠ c.good (w.ds p))
+    (hfs : ∀ a ∈ fs, a = Net.urlError ∨ a = Net.timeout)
+    (hk : fs.length ≤ left) (hfuel : fs.length + 10 ≤ fuel) :
+    let r := runSolo c fuel w p (fs ++ .payload b :: rest)
+    r.1.pc p = .failed .osError ∧ r.1.entry = w.entry ∧
+    r.2 = retryTrace fs.length left ++ [.fetched b, .failed .osError] ∧
+    downloads (w.pc p) r.2 = fs.length + 1 := by
+  intro r
+  have hfs' : ∀ a ∈ fs, isFail a = true := fun a ha => by rcases hfs a ha with h | h <;> rw [h] <;> rfl
+  have hr : r = _ := solo_fetch_bad c fs rest hpc hb hfs' hk (by omega)
+  rw [hr]
+  refine ⟨by simp, by simp, rfl, ?_⟩
+  rw [hpc]
+  exact downloads_retry _ _ _ (by simp [PC.isFetching])
+
+/-- `left + 1` failures: the LAST one is re-raised, after exactly `left + 1` download attempts
+(every step of the run is one), and nothing is cached -/
+theorem retry_exhausted (w : World) (p left : Nat) (a : Net) (fs rest : List Net) (fuel : Nat)
+    (hpc : w.pc p = .fetching left) (hfs : ∀ a ∈ fs, a = Net.urlError ∨ a = Net.timeout)
+    (hk : fs.length = left) (hfuel : left + 10 ≤ fuel) :
+    let r := runSolo c fuel w p (fs ++ a :: rest)
+    (a = .urlError → r.1.pc p = .failed .urlError) ∧
+    (a = .timeout → r.1.pc p = .failed .timeoutError) ∧
+    (a = .urlError ∨ a = .timeout →
+      r.1.entry = w.entry ∧ r.2.length = left + 1 ∧ downloads (w.pc p) r.2 = left + 1) := by
+  intro r
+  have hfs' : ∀ a ∈ fs, isFail a = true := fun a ha => by rcases hfs a ha with h | h <;> rw [h] <;> rfl
+  have key : isFail a = true → r = _ := fun ha =>
+    solo_fetch_exhausted c fs rest hpc hfs' ha hk (by omega)
+  refine ⟨fun h => ?_, fun h => ?_, fun h => ?_⟩
+  · rw [key (by rw [h]; rfl), h]; simp [errOf]
+  · rw [key (by rw [h]; rfl), h]; simp [errOf]
+  · rw [key (by rcases h with h | h <;> rw [h] <;> rfl)]
+    refine ⟨by simp, by simp, ?_⟩
+    rw [hpc]
+    exact downloads_retry _ _ _ (by simp [PC.isFetching])
+
+/-- any other exception propagates at once, however many retries remain -/
+theorem retry_other_immediate (w : World) (p left : Nat) (fs rest : List Net) (fuel : Nat)
+    (hpc : w.pc p = .fetching left) (hfs : ∀ a ∈ fs, a = Net.urlError ∨ a = Net.timeout)
+    (hk : fs.length ≤ left) (hfuel : fs.length + 10 ≤ fuel) :
+    let r := runSolo c fuel w p (fs ++ .other :: rest)
+    r.1.pc p = .failed .typeError ∧ r.1.entry = w.entry ∧
+    downloads (w.pc p) r.2 = fs.length + 1 := by
+  intro r
+  have hfs' : ∀ a ∈ fs, isFail a = true := fun a ha => by rcases hfs a ha with h | h <;> rw [h] <;> rfl
+  have hr : r = _ := solo_fetch_other c fs rest hpc hfs' hk (by omega)
+  rw [hr]
+  refine ⟨by simp, by simp, ?_⟩
+  rw [hpc]
+  exact downloads_retry _ _ _ (by simp [PC.isFetching])
+
+/-- the same bound for a whole load: from `init true _ retries` with the entry absent the first
+step enters `fetching retries` (it is no download attempt), then the loop above runs -/
+theorem retry_bound (w : World) (p retries : Nat) (even : Bool) (fs rest : List Net) (fuel : Nat)
+    (hpc : w.pc p = .init true even retries) (he : w.entry (c.slotOf (w.ds p)) = none)
+    (hfs : ∀ a ∈ fs, a = Net.urlError ∨ a = Net.timeout) (hfuel : fs.length + 11 ≤ fuel) :
+    -- absorbed, pinned payload
+    (fs.length ≤ retries →
+      let r := runSolo c fuel w p (fs ++ .payload (c.good (w.ds p)) :: rest)
+      r.1.pc p = .done (c.parse (c.good (w.ds p))) ∧
+      r.1.entry (c.slotOf (w.ds p)) = some (c.parse (c.good (w.ds p))) ∧
+      downloads (w.pc p) r.2 = fs.length + 1) ∧
+    -- absorbed, wrong payload
+    (fs.length ≤ retries → ∀ b, b ≠ c.good (w.ds p) →
+      let r := runSolo c fuel w p (fs ++ .payload b :: rest)
+      r.1.pc p = .failed .osError ∧ r.1.entry = w.entry ∧
+      downloads (w.pc p) r.2 = fs.length + 1) ∧
+    -- one failure too many: the last failure is re-raised after `retries + 1` attempts
+    (fs.length = retries → ∀ a,
+      let r := runSolo c fuel w p (fs ++ a :: rest)
+      (a = .urlError → r.1.pc p = .failed .urlError) ∧
+      (a = .timeout → r.1.pc p = .failed .timeoutError) ∧
+      (a = .urlError ∨ a = .timeout →
+        r.1.entry = w.entry ∧ downloads (w.pc p) r.2 = retries + 1)) ∧
+    -- an uncaught exception
+    (fs.length ≤ retries →
+      let r := runSolo c fuel w p (fs ++ .other :: rest)
+      r.1.pc p = .failed .typeError ∧ r.1.entry = w.entry ∧
+      downloads (w.pc p) r.2 = fs.length + 1) := by
+  have hc : ((true && !(w.entry (c.slotOf (w.ds p))).isSome)
+      || (true && even && (w.entry (c.slotOf (w.ds p))).isSome)) = true := by simp [he]
+  have hstart : ∀ s, runSolo c fuel w p s =
+      ((runSolo c (fuel - 1) (setPC w p (.fetching retries)) p s).1,
+        .fetching retries :: (runSolo c (fuel - 1) (setPC w p (.fetching retries)) p s).2) :=
+    fun s => solo_init_fetch c s hpc hc (by omega)
+  have hdl : ∀ t : List PC, downloads (w.pc p) (.fetching retries :: t)
+      = downloads (.fetching retries) t := by
+    intro t; simp [downloads, hpc, PC.isFetching]
+  have hp' : (setPC w p (.fetching retries)).pc p = .fetching retries := setPC_pc_self _ _ _
+  refine ⟨fun hk => ?_, fun hk b hb => ?_, fun hk a => ?_, fun hk => ?_⟩
+  · intro r
+    have := retry_absorbed_good c (setPC w p (.fetching retries)) p retries fs rest (fuel - 1)
+      hp' hfs hk (by omega)
+    simp only [setPC_ds, hp'] at this
+    show (runSolo c fuel w p _).1.pc p = _ ∧ (runSolo c fuel w p _).1.entry _ = _ ∧
+      downloads _ (runSolo c fuel w p _).2 = _
+    rw [hstart, hdl]
+    exact ⟨this.1, this.2.1, this.2.2.2⟩
+  · intro r
+    have := retry_absorbed_bad c (setPC w p (.fetching retries)) p retries b fs rest (fuel - 1)
+      hp' (by simpa using hb) hfs hk (by omega)
+    simp only [hp', setPC_entry] at this
+    show (runSolo c fuel w p _).1.pc p = _ ∧ (runSolo c fuel w p _).1.entry = _ ∧
+      downloads _ (runSolo c fuel w p _).2 = _
+    rw [hstart, hdl]
+    exact ⟨this.1, this.2.1, this.2.2.2⟩
+  · intro r
+    have := retry_exhausted c (setPC w p (.fetching retries)) p retries a fs rest (fuel - 1)
+      hp' hfs hk (by omega)
+    simp only [hp', setPC_entry] at this
+    show ((a = .urlError → (runSolo c fuel w p _).1.pc p = _) ∧
+      (a = .timeout → (runSolo c fuel w p _).1.pc p = _) ∧
+      (a = .urlError ∨ a = .timeout → (runSolo c fuel w p _).1.entry = _ ∧
+        downloads _ (runSolo c fuel w p _).2 = _))
+    rw [hstart, hdl]
+    exact ⟨this.1, this.2.1, fun h => ⟨(this.2.2 h).1, (this.2.2 h).2.2⟩⟩
+  · intro r
+    have := retry_other_immediate c (setPC w p (.fetching retries)) p retries fs rest (fuel - 1)
+      hp' hfs hk (by omega)
+    simp only [hp', setPC_entry] at this
+    show (runSolo c fuel w p _).1.pc p = _ ∧ (runSolo c fuel w p _).1.entry = _ ∧
+      downloads _ (runSolo c fuel w p _).2 = _
+    rw [hstart, hdl]
+    exact this
+
+/-! ## 8. What is returned for one dataset does not depend on other loads -/
+
+/-- a step of `p` writes at most the slot of `p`'s own dataset -/
+theorem step_entry_other (w : World) (p : Nat) (net : Net) (s : Nat)
+    (hs : s ≠ c.slotOf (w.ds p)) : (step c w p net).entry s = w.entry s :=
+  Cache.step_entry_other c w p net hs
+
+/-- loading `p`'s dataset first changes neither the result, nor the trace (in particular the
+number of download attempts), nor the resulting entry of a load of `q`'s dataset — for all flags,
+scripts and fuels of both loads -/
+theorem order_independent (hinj : Function.Injective c.slotOf) (w : World) (p q : Nat)
+    (hpq : p ≠ q) (hd : w.ds p ≠ w.ds q) (f₁ f₂ : Nat) (s₁ s₂ : List Net) :
+    let w' := (runSolo c f₁ w p s₁).1
+    (runSolo c f₂ w' q s₂).1.pc q = (runSolo c f₂ w q s₂).1.pc q ∧
+    (runSolo c f₂ w' q s₂).2 = (runSolo c f₂ w q s₂).2 ∧
+    (runSolo c f₂ w' q s₂).1.entry (c.slotOf (w.ds q))
+      = (runSolo c f₂ w q s₂).1.entry (c.slotOf (w.ds q)) := by
+  intro w'
+  obtain ⟨hds, hpc, hen⟩ := runSolo_frame c (p := p) f₁ w s₁
+  have hsim : Sim c q w' w := by
+    refine ⟨hpc q (Ne.symm hpq), by rw [hds], ?_⟩
+    rw [hds]
+    exact hen _ (fun h => hd (hinj h).symm)
+  obtain ⟨⟨h1, h2, h3⟩, h4⟩ := runSolo_congr c (q := q) f₂ w' w s₂ hsim
+  refine ⟨h1, h4, ?_⟩
+  have e1 : (runSolo c f₂ w' q s₂).1.ds q = w.ds q := by
+    rw [(runSolo_frame c (p := q) f₂ w' s₂).1, hds]
+  have e2 : (runSolo c f₂ w q s₂).1.ds q = w.ds q := by
+    rw [(runSolo_frame c (p := q) f₂ w s₂).1]
+  rw [e1, e2] at h3
+  exact h3
+
+/-- both orders of the two loads give both loaders the same results -/
+theorem order_independent_both (hinj : Function.Injective c.slotOf) (w : World) (p q : Nat)
+    (hpq : p ≠ q) (hd : w.ds p ≠ w.ds q) (f₁ f₂ : Nat) (s₁ s₂ : List Net) :
+    let pq := (runSolo c f₂ (runSolo c f₁ w p s₁).1 q s₂).1
+    let qp := (runSolo c f₁ (runSolo c f₂ w q s₂).1 p s₁).1
+    pq.pc p = qp.pc p ∧ pq.pc q = qp.pc q := by
+  intro pq qp
+  have hA := (order_independent c hinj w p q hpq hd f₁ f₂ s₁ s₂).1
+  have hB := (order_independent c hinj w q p (Ne.symm hpq) (Ne.symm hd) f₂ f₁ s₂ s₁).1
+  have fA := (runSolo_frame c (p := q) f₂ (runSolo c f₁ w p s₁).1 s₂).2.1 p hpq
+  have fB := (runSolo_frame c (p := p) f₁ (runSolo c f₂ w q s₂).1 s₁).2.1 q (Ne.symm hpq)
+  exact ⟨by show pq.pc p = qp.pc p; rw [fA, hB], by show pq.pc q = qp.pc q; rw [fB, hA]⟩
+
+/-! ### The negative companion: with a shared slot the results cross -/
+
+/-- every dataset in slot `0`: `slotOf` is not injective -/
+def cShared : Cfg := { slotOf := fun _ => 0, good := fun d => 10 + d, parse := fun b => 100 + b }
+
+/-- loader `0` loads dataset `1`, loader `1` loads dataset `2`; default flags, 3 retries -/
+def wShared : World :=
+  { entry := fun _ => none, ds := fun p => p + 1, pc := fun _ => .init true false 3 }
+
+/-- loading dataset 1 and then dataset 2 (entry present, default flags) returns dataset 1's data
+for dataset 2; loaded alone, dataset 2's own data is returned.  (The pinned package has this
+defect for one pair of datasets, see C18.) -/
+theorem shared_slot_crosses :
+    ∃ (c : Cfg) (w : World) (p q : Nat) (s₁ s₂ : List Net) (f : Nat),
+      Init w ∧ p ≠ q ∧ w.ds p ≠ w.ds q ∧ c.slotOf (w.ds p) = c.slotOf (w.ds q) ∧
+      c.parse (c.good (w.ds p)) ≠ c.parse (c.good (w.ds q)) ∧
+      (runSolo c f w q s₂).1.pc q = .done (c.parse (c.good (w.ds q))) ∧
+      (runSolo c f (runSolo c f w p s₁).1 q s₂).1.pc q = .done (c.parse (c.good (w.ds p))) :=
+  ⟨cShared, wShared, 0, 1, [.payload 11], [.payload 12], 12,
+    ⟨fun _ => rfl, fun _ => ⟨_, _, _, rfl⟩⟩, by decide, by decide, rfl, by decide,
+    by decide, by decide⟩
+
+/-! ## Non-vacuity -/
+
+/-- dataset `d` has slot `d`, pinned payload `10 + d`, parses to `100 + payload` -/
+def c₀ : Cfg := { slotOf := fun d => d, good := fun d => 10 + d, parse := fun b => 100 + b }
+
+theorem c₀_inj : Function.Injective c₀.slotOf := fun _ _ h => h
+
+/-- loaders 0, 1 and 3 load dataset 7, every other loader `p` loads dataset `p` -/
+def w₀ : World :=
+  { entry := fun _ => none,
+    ds := fun p => if p = 0 ∨ p = 1 ∨ p = 3 then 7 else p,
+    pc := fun p => if p = 2 then .init false false 0 else .init true false 3 }
+
+theorem w₀_init : Init w₀ := by
+  refine ⟨fun _ => rfl, fun p => ?_⟩
+  by_cases h : p = 2
+  · exact ⟨false, false, 0, by simp [w₀, h]⟩
+  · exact ⟨true, false, 3, by simp [w₀, h]⟩
+
+/-- two concurrent loaders of dataset 7: loader 0 suffers a transient failure, downloads the
+pinned payload and is killed inside `pickle.dump`; loader 1 downloads a corrupted payload -/
+def history : List Event :=
+  [.run 0 .other, .run 1 .other, .run 0 .urlError, .run 0 (.payload 17), .run 0 .other,
+   .run 0 .other, .run 0 .other, .kill 0, .run 1 (.payload 99), .run 1 .other, .run 0 .other]
+
+example : (runEvents c₀ w₀ (history.take 7)).pc 0 = .dumping 117 := by decide
+example : (runEvents c₀ w₀ history).pc 0 = .crashed := by decide
+example : (runEvents c₀ w₀ history).pc 1 = .failed .osError := by decide
+example : (runEvents c₀ w₀ history).entry 7 = none := by decide
+/-- offline loader 2 finds nothing -/
+example : (runEvents c₀ w₀ (history ++ [.run 2 .other])).pc 2 = .failed .osError := by decide
+
+/-- afterwards loader 3 loads dataset 7 alone: one download, verified data cached and returned -/
+example : (runSolo c₀ 12 (runEvents c₀ w₀ history) 3 [.payload 17]).1.pc 3 = .done 117 := by decide
+example : (runSolo c₀ 12 (runEvents c₀ w₀ history) 3 [.payload 17]).1.entry 7 = some 117 := by
+  decide
+/-- and loader 4 (dataset 4) then hits nothing of it -/
+example :
+    (runSolo c₀ 12 (runSolo c₀ 12 (runEvents c₀ w₀ history) 3 [.payload 17]).1 4 [.payload 14]).1.pc 4
+      = .done 114 := by decide
+
+/-- the hypotheses of the general theorems are satisfiable: instances on the concrete history -/
+example : (runEvents c₀ w₀ history).entry (c₀.slotOf 7) = none ∨
+    (runEvents c₀ w₀ history).entry (c₀.slotOf 7) = some (c₀.parse (c₀.good 7)) :=
+  entry_absent_or_complete c₀ c₀_inj w₀ w₀_init history 7
+
+example : CacheInv c₀ (runEvents c₀ w₀ history) :=
+  cache_inv_reachable c₀ c₀_inj w₀ history (inv_init c₀ w₀ w₀_init)
+
+/-- retry bound, concretely: 3 retries absorb 3 failures; a 4th one is re-raised -/
+example : (runSolo c₀ 20 w₀ 0 [.urlError, .timeout, .urlError, .payload 17]).1.pc 0 = .done 117 := by
+  decide
+example : (runSolo c₀ 20 w₀ 0 [.urlError, .timeout, .urlError, .timeout, .payload 17]).1.pc 0
+    = .failed .timeoutError := by decide
+example : downloads (w₀.pc 0)
+    (runSolo c₀ 20 w₀ 0 [.urlError, .timeout, .urlError, .timeout, .payload 17]).2 = 4 := by decide
 
 end C19
 end TWV
